@@ -121,9 +121,22 @@ func vpH_C07_dv() {
 	if len(held) > len(docs) && !vpThorough() {
 		steps = 2 // merged variants hold more documents: two visits in the quick tier
 	}
-	for step := 0; step < steps; step++ {
+	for step := 0; step < steps-1; step++ { // the last visit is the symbolic one below
 		n := vpChoice("visit", cnt+1) // cnt = beyond the last document
 		vpDvVisit("dv", r, uint64(n), fields, exp)
+	}
+	// one more visit whose document number is symbolic over the documents of the
+	// segment (the property speaks of documents of the segment; a number >= Count
+	// whose 1024-document chunk does not exist makes the reader index past its
+	// chunk table - observed, outside the statement, see DESIGN 4)
+	if cnt > 0 {
+		ns := vpRange("visit.sym", 0, uint64(cnt-1))
+		for k := 0; k < cnt; k++ {
+			if ns == uint64(k) {
+				vpDvVisit("dv (symbolic n)", r, uint64(k), fields, exp)
+				break
+			}
+		}
 	}
 	vpReach("C07 dv end")
 }
